@@ -37,6 +37,14 @@ impl Family for C19Family {
                 3 => Beh::CloseAfter(50 + r.below(3000) as u64),
                 4 => Beh::ResetAfter(50 + r.below(3000) as u64),
                 5 => Beh::Ignore,
+                // shorter than the smallest channel timeout: the loss, not a timeout, ends the phase
+                6 => {
+                    if r.chance(1, 2) {
+                        Beh::SilentClose(50 + r.below(900) as u64)
+                    } else {
+                        Beh::SilentReset(50 + r.below(900) as u64)
+                    }
+                }
                 _ => Beh::Refuse,
             })
             .collect();
@@ -61,10 +69,16 @@ impl Family for C19Family {
                 Beh::Ignore => true, // needs a stream request to time out
                 Beh::Refuse | Beh::Stall => r.chance(1, 3),
                 Beh::Healthy => r.chance(1, 2),
+                Beh::SilentClose(_) | Beh::SilentReset(_) => r.chance(2, 3),
                 _ => false,
             };
             if want {
-                locals.push(Local { phase: i, delay_ms: r.below(150) as u64, nbytes: 1 + r.below(3000), expect_served: true });
+                // during a silent phase the request must be out before the connection is lost
+                let lim = match b {
+                    Beh::SilentClose(d) | Beh::SilentReset(d) => (*d as usize).min(150),
+                    _ => 150,
+                };
+                locals.push(Local { phase: i, delay_ms: r.below(lim) as u64, nbytes: 1 + r.below(3000), expect_served: true });
             }
         }
         // an Ignore phase before `first_ok` would hang without a request: give it one anyway
@@ -83,7 +97,7 @@ impl Family for C19Family {
         c19::run(&plan, sched)
     }
     fn rule(&self) -> &'static str {
-        "the real client (client_main_inner) with max_retry_count in {0,1,2,3,5}, max_retry_interval 100 ms..300 s, handshake timeout 1/3 s, channel timeout 1/2/5 s against a scripted server playing 2-7 behaviours, one per connection attempt: refuse, accept-then-stall, HTTP 403, handshake then orderly Close after d ms, handshake then TCP reset after d ms, handshake then ignore everything (stream requests time out), real healthy server; local TCP clients connect while the tunnel is down or unanswered. Oracle: attempt k+1 starts exactly min(200 ms * 2^c, max) after failure k (virtual time), c restarting after every completed handshake; MaxRetryCountReached exactly after max_retry_count consecutive failed retries; non-retryable ends at once; local listeners never refuse; parked local connections are echoed by the next healthy connection. Non-trivial: at least two attempts."
+        "the real client (client_main_inner) with max_retry_count in {0,1,2,3,5}, max_retry_interval 100 ms..300 s, handshake timeout 1/3 s, channel timeout 1/2/5 s against a scripted server playing 2-7 behaviours, one per connection attempt: refuse, accept-then-stall, HTTP 403, handshake then orderly Close after d ms, handshake then TCP reset after d ms, handshake then ignore everything (stream requests time out), handshake then read but answer no stream request and Close / reset after d ms (a request is in flight at the loss), real healthy server; local TCP clients connect while the tunnel is down or unanswered. Oracle: attempt k+1 starts exactly min(200 ms * 2^c, max) after failure k (virtual time), c restarting after every completed handshake; MaxRetryCountReached exactly after max_retry_count consecutive failed retries; non-retryable ends at once; local listeners never refuse; parked local connections are echoed by the next healthy connection. Non-trivial: at least two attempts."
     }
 }
 
@@ -204,7 +218,7 @@ pub struct C14Family {
 }
 /// all deviation sets of size <= 2 from the valid request: (factor, value) with factor 0 method, 1 path, 2..=6 headers, 7 psk
 fn c14_deviation_sets() -> Vec<Vec<(usize, u8)>> {
-    let domain: [u8; 8] = [4, 6, 6, 6, 6, 6, 6, 5];
+    let domain: [u8; 8] = [4, 6, 6, 6, 6, 6, 6, c14::N_PSK];
     let mut singles = vec![];
     for (f, n) in domain.iter().enumerate() {
         for v in 1..*n {
@@ -229,7 +243,7 @@ impl Family for C14Family {
         if self.enumerate { "matrix" } else { "sampled" }
     }
     fn runs(&self, tier: Tier) -> u64 {
-        let all = 12 * c14_deviation_sets().len() as u64;
+        let all = 24 * c14_deviation_sets().len() as u64;
         match (self.enumerate, tier) {
             (true, Tier::Quick) => all * 3,
             (true, Tier::Thorough) => all * 40,
@@ -242,14 +256,15 @@ impl Family for C14Family {
         let seed = simcore::prng::mix(batch_seed, self.name(), index);
         let mut r = Prng::new(seed);
         let r = &mut r;
-        let mut p = C14Plan { psk_on: false, obfs: false, method: 0, path: 0, hv: [0; 5], psk: 0, frags: vec![], frag_delay_ms: 0, net: common::NetPlan::default(), try_tunnel: true, backend: 0 };
+        let mut p = C14Plan { psk_on: false, obfs: false, method: 0, path: 0, hv: [0; 5], psk: 0, psk_kind: 0, frags: vec![], frag_delay_ms: 0, net: common::NetPlan::default(), try_tunnel: true, backend: 0 };
         if self.enumerate {
             let sets = c14_deviation_sets();
-            let k = index % (12 * sets.len() as u64);
+            let k = index % (24 * sets.len() as u64);
             let cfg = k / sets.len() as u64;
             p.psk_on = cfg & 1 == 1;
             p.obfs = cfg & 2 == 2;
-            p.backend = (cfg / 4) as u8;
+            p.backend = ((cfg / 4) % 3) as u8;
+            p.psk_kind = (cfg / 12) as u8;
             for (f, v) in &sets[(k % sets.len() as u64) as usize] {
                 match f {
                     0 => p.method = *v,
@@ -267,6 +282,7 @@ impl Family for C14Family {
                 *h = if r.chance(1, 2) { r.below(2) as u8 } else { r.below(N_HVAR as usize) as u8 };
             }
             p.psk = if r.chance(1, 2) { 0 } else { r.below(N_PSK as usize) as u8 };
+            p.psk_kind = r.below(2) as u8;
             p.backend = r.below(3) as u8;
         }
         // fragmentation: split points anywhere, including inside a header name, with virtual delays
@@ -289,7 +305,7 @@ impl Family for C14Family {
     }
     fn rule(&self) -> &'static str {
         if self.enumerate {
-            "for each of the four configurations {PSK configured or not} x {obfs on/off}: the valid request and ALL requests deviating from it in at most two of the eight factors (method GET/POST/HEAD/PUT; path /ws, /ws/, /WS, /health, /version, unknown; each of Connection, Upgrade, Sec-WebSocket-Version, Sec-WebSocket-Protocol, Sec-WebSocket-Key exact / case-changed / near-miss / absent / empty / duplicated; X-Penguin-PSK equal / absent / prefix / case-variant / padded) are enumerated by run index; each is sent through real hyper over the simulated network under a seeded fragmentation (split points anywhere, 1-byte fragments included, virtual delays) together with its twin on an unknown path."
+            "for each of the configurations {PSK configured or not; the key ASCII or with octets >= 0x80} x {obfs on/off} x {no backend / backend up / backend down}: the valid request and ALL requests deviating from it in at most two of the eight factors (method GET/POST/HEAD/PUT; path /ws, /ws/, /WS, /health, /version, unknown; each of Connection, Upgrade, Sec-WebSocket-Version, Sec-WebSocket-Protocol, Sec-WebSocket-Key exact / case-changed / near-miss / absent / empty / duplicated; X-Penguin-PSK equal / absent / prefix / case-variant / padded / another key over the same alphabet / a key over the other alphabet) are enumerated by run index; each is sent through real hyper over the simulated network under a seeded fragmentation (split points anywhere, 1-byte fragments included, virtual delays) together with its twin on an unknown path."
         } else {
             "higher-order combinations of the same factors, sampled."
         }
@@ -367,7 +383,7 @@ fn c19() -> Check {
         engine: "syssim",
         level: "fault_enumeration",
         families: vec![Box::new(C19Family), Box::new(BackoffFamily)],
-        required_probes: vec!["retry-checked", "stream-request-timeout-checked", "backoff-capped", "gave-up-after-max-retries", "non-retryable-failure", "established-connection-lost", "parked-local-connection-served", "fault:tcp-reset", "fault:tcp-refused"],
+        required_probes: vec!["retry-checked", "stream-request-timeout-checked", "backoff-capped", "gave-up-after-max-retries", "non-retryable-failure", "established-connection-lost", "parked-local-connection-served", "request-in-flight-at-loss", "fault:tcp-reset", "fault:tcp-refused"],
         assumptions: vec!["zero network latency in this family so that retry instants are exact; TLS is not simulated (ws://)", "the client's keepalive is off (Multiplexor::new_with_opt hard-wires std::time::Instant; keepalive is decided in C16)"],
         real: vec!["penguin client: client_main_inner, retry loop + Backoff, ws_connect::handshake (timeout select), on_connected, get_send_stream_chan, handle_remote/tcp listener", "tokio-tungstenite client and server", "penguin server run_listener + hyper + forwarder (healthy phases)", "penguin-mux with the real tungstenite WebSocket"],
         stub: vec!["tokio::net (penguin-simnet: in-memory sockets, refusal, reset)", "the scripted server (one behaviour per attempt)", "clock (tokio paused)", "tokio scheduler RNG (seeded)"],
